@@ -411,6 +411,18 @@ func (rm *ResponseManager) finishTask(task *peertask.Task, p peer.ID, err error)
 		return
 	}
 
+	// a network error signalled after the executor last checked its signals was never seen by it.
+	// The failed message has closed the response stream, so the final status queued by the executor
+	// was dropped and no message event will ever retire this response: retire it here
+	select {
+	case sigErr := <-response.signals.ErrSignal:
+		if sigErr == queryexecutor.ErrNetworkError {
+			rm.terminateRequest(requestID)
+			return
+		}
+	default:
+	}
+
 	response.state = graphsync.CompletingSend
 }
 
